@@ -60,16 +60,31 @@ def void_group(ctx, rep, R):
     return f
 
 
+def _adjacent(fn_node, first, second):
+    """`second` directly follows `first` in the same statement list (logging in between is transparent)"""
+    from sa.cfg import is_logging_stmt
+    for n in ast.walk(fn_node):
+        for fld in ("body", "orelse", "finalbody"):
+            b = getattr(n, fld, None)
+            if isinstance(b, list) and first in b and second in b:
+                seq = [x for x in b if not is_logging_stmt(x)]
+                return seq.index(second) == seq.index(first) + 1
+    return False
+
+
 def run(ctx, rep):
     prog, res = ctx.prog, ctx.res
     so = prog.cls("SimulatedOrder")
 
     # ------------------------------------------------------------------ R1 derived remainder
     sr = prog.own_method("SimulatedOrder", "size_remaining")
-    rets = [r for r in walk_nodes(sr.node.body, ast.Return) if r.value is not None]
+    from sa.kinds import folded_returns
+    cfgsr = ctx.cfg(sr)
+    # what a LIMIT order's remainder is, with locals and new helpers folded in
+    folded = folded_returns(cfgsr, sr, lambda e: True if utext(e) == "self.order.order_type.ORDER_TYPE == OrderTypes.LIMIT" else None)
     terms, base = None, None
-    for r in rets:
-        v = r.value
+    for txt in sorted(folded):
+        v = ast.parse(txt, mode="eval").body
         if isinstance(v, ast.Call) and call_name(v) == "round":
             v = v.args[0]
         if isinstance(v, ast.BinOp) and isinstance(v.op, ast.Sub):
@@ -77,12 +92,13 @@ def run(ctx, rep):
             while isinstance(v, ast.BinOp) and isinstance(v.op, ast.Sub):
                 ts.append(utext(v.right))
                 v = v.left
-            terms, base = set(ts), utext(v)
+            if terms is None or "order_type.size" in utext(v):
+                terms, base = set(ts), utext(v)
     want = {"self.size_matched", "self.size_cancelled", "self.size_lapsed", "self.size_voided"}
     rep.check(terms == want, "R1", key(sr, None, "remainder = requested - matched - cancelled - lapsed - voided"), sr, None,
               "subtracts %s" % sorted(terms or []))
-    bdef = [s for s in walk_nodes(sr.node.body, ast.Assign) if utext(s.targets[0]) == base]
-    rep.check(len(bdef) == 1 and utext(bdef[0].value).startswith("self.order.order_type.size"), "R1",
+    bdef = [base] if base else []
+    rep.check(len(bdef) == 1 and bdef[0].startswith("self.order.order_type.size"), "R1",
               key(sr, None, "requested size is the order type's size"), sr)
 
     # ------------------------------------------------------------------ R2 bounded writes
@@ -110,6 +126,9 @@ def run(ctx, rep):
                 if len(d) == 1 and _is_min_of_remaining(d[0].value):
                     bounded = True
                     why = "adds a local clamped with min(., self.size_remaining)"
+                elif len(d) == 1 and utext(d[0].value) == "self.size_remaining" and _adjacent(f.node, d[0], s):
+                    bounded = True
+                    why = "adds the remainder read into a local by the statement before"
             if good and not bounded and f.name == "_process_sp" and attr == "size_cancelled" \
                     and val == "round(self.size_remaining - size, 2)":
                 bounded = True
